@@ -372,7 +372,25 @@ def worker_main(pid, tier, seed, shard, nshards, out_path):
     import random
     random.seed(key_digest((pid, seed, shard, "py")))
     ck = Check(pid, tier, seed, shard, nshards)
-    mod.run(ck)
+    try:
+        mod.run(ck)
+    except Exception as e:  # noqa
+        # Safety net.  The unchanged library never raises under the workloads (that is what the sweeps establish), so an exception that
+        # escapes a check and was RAISED INSIDE THE LIBRARY (innermost frames in the package under test) is the library refusing or
+        # mishandling an input the workload declares valid: a violation with the traceback as witness.  An exception raised by the
+        # check's own code stays a harness error.
+        import traceback
+        tb = traceback.extract_tb(e.__traceback__)
+        lib_dir = os.path.join(os.path.realpath(REPO), "pypose") + os.sep
+        own_dir = os.path.realpath(ROOT) + os.sep
+        ours = [fr for fr in tb if os.path.realpath(fr.filename).startswith((lib_dir, own_dir))]
+        inner = [fr for fr in tb if os.path.realpath(fr.filename).startswith(lib_dir)]
+        # the deepest frame that is either the check's or the library's decides who raised (frames of torch below it do not count)
+        if not inner or not os.path.realpath(ours[-1].filename).startswith(lib_dir):
+            raise
+        fr = inner[-1]
+        ck.violation("uncaught", "exception escaped the check", f"{os.path.basename(fr.filename)}:{fr.name}", "raised:" + type(e).__name__,
+                     {"exception": repr(e)[:400], "traceback": "".join(traceback.format_exception(type(e), e, e.__traceback__))[-2500:]})
     with open(out_path, "w") as f:
         json.dump(ck.to_partial(), f)
 
